@@ -78,6 +78,9 @@ def units(tier, seed):
     else:
         for i in range(0, len(core), 2):
             us.append({"kind": "seq", "label": f"rev:{core[i][0]}", "first": [l for l, _ in core[i : i + 2]], "rest": "full", "depth": 2, "seed": seed, "tier": tier})
+    labels = [l for l, _ in full]
+    for i in range(0, len(labels), 16):
+        us.append({"kind": "boundary", "label": f"boundary:{i}", "labels": labels[i : i + 16], "seed": seed, "tier": tier})
     return us
 
 
@@ -159,9 +162,56 @@ def check_stream(acc, labels, msgs, trailing_command):
             return
 
 
+def boundary_states(acc, unit):
+    """differential check with no expected value: the decoder's coroutine state after k complete pairs equals the
+    state before the first byte, up to what is carried on purpose (the pump's last command code, the stream loop's
+    previous command object); after a command it may additionally depend only on that command"""
+    from ..engines import bytestep
+
+    ns = loader.load()
+    full, core = get_alpha(unit["seed"])
+    T = ns.CommandResponseStream
+
+    def strip(state):
+        out = []
+        for name, lasti, loc in state:
+            drop = {"marshal": ("command_code", "event"), "process_command_response_stream": ("command",)}.get(name, ())
+            if name == "process_command_response_stream":
+                lasti = None  # first iteration vs later iterations of the same loop
+            out.append((name, lasti, tuple((k, v) for k, v in loc if k not in drop)))
+        return tuple(out)
+
+    # the state is captured when the pump asks for the next byte, i.e. before the events of the last byte are
+    # drained: compare one byte into the next command (its first tag byte) with one byte into the first command
+    nxt = b"\x80"
+    r0 = bytestep.run_prefix(T, nxt, True, {})
+    s0 = strip(r0.state)
+    for label in unit["labels"]:
+        if label not in full:
+            continue
+        c, r = full[label]
+        acc.count("evaluations")
+        acc.count("states", 2)
+        acc.count("transitions", 2)
+        for k in (1, 2):
+            loader.cache_clear()
+            rk = bytestep.run_prefix(T, (c + r) * k + nxt, True, {})
+            acc.shape(("boundary", label, k))
+            if rk.state is None:
+                acc.violation({"clause": "boundary-state:no-state", "pairs": k}, {"harness": "boundary", "label": label, "messages": [c.hex(), r.hex()] * k}, f"after {k} pair(s) of {label} the decoder does not ask for more input ({rk.kind})")
+            elif strip(rk.state) != s0:
+                a, b = strip(rk.state), s0
+                diff = next((f"{x[0]}: {set(x[2]) ^ set(y[2])}" for x, y in zip(a, b) if x != y), f"stack depth {len(a)} vs {len(b)}")
+                acc.violation({"clause": "boundary-state:differs-from-initial", "pairs": k}, {"harness": "boundary", "label": label, "messages": [c.hex(), r.hex()] * k}, f"after {k} pair(s) of {label} the coroutine state differs from the initial state: {diff[:300]}")
+    acc.sample({"unit": unit["label"], "what": "canonical coroutine state after 1 and 2 complete pairs == state before the first byte (modulo carried command code)"}, cap=1)
+    return acc
+
+
 def run_unit(unit):
     acc = Acc()
     loader.load()
+    if unit["kind"] == "boundary":
+        return boundary_states(acc, unit)
     full, core = get_alpha(unit["seed"])
     rest = core if unit["rest"] == "core" else full
     for first in unit["first"]:
@@ -205,5 +255,8 @@ def replay(case):
     acc = Acc()
     loader.load()
     msgs = [bytes.fromhex(m) for m in case["messages"]]
+    if case.get("harness") == "boundary":
+        a = boundary_states(Acc(), {"kind": "boundary", "label": "replay", "labels": [case["label"]], "seed": 0})
+        return [(v["fp"], v["case"], v["detail"]) for v in a.viol.values()]
     check_stream(acc, case.get("labels", []), msgs, len(msgs) % 2 == 1)
     return [(v["fp"], v["case"], v["detail"]) for v in acc.viol.values()]
